@@ -11,6 +11,7 @@ import (
 	"bytes"
 	"fmt"
 	"sort"
+	"strings"
 	"testing"
 	"time"
 
@@ -94,14 +95,14 @@ func pick(t *rapid.T, w weights, label string) string {
 }
 
 var timeModesAll = []string{"mid", "mid", "now", "now", "prev-1", "prev", "prev+1", "next-1", "next", "next+1", "trusted"}
-var timeModesSane = []string{"mid", "mid", "mid", "now", "now", "prev+1", "next-1"}
+var timeModesSane = []string{"mid", "mid", "mid", "prev+1", "next-1"}
 
 // genCase draws a history. rel(i, n) is the probability (in %) that the update at position
 // i of n draws its header time from the neighbour-relative modes (C23) instead of the sane ones.
 func genCase(t *rapid.T, w weights, maxOps int, rel func(i, n int) int) Case {
 	c := Case{}
 	c.TP = rapid.SampledFrom([]int64{300, 600, 900, 1500}).Draw(t, "tp")
-	c.Age = rapid.Int64Range(0, c.TP/2).Draw(t, "age")
+	c.Age = rapid.Int64Range(0, c.TP/3).Draw(t, "age")
 	n := rapid.IntRange(6, 12).Draw(t, "nheights")
 	hg := rapid.OneOf(
 		rapid.SampledFrom(awkward),
@@ -117,12 +118,19 @@ func genCase(t *rapid.T, w weights, maxOps int, rel func(i, n int) int) Case {
 	c.Heights = hs
 	c.Init = rapid.SampledFrom([]int{0, 0, 0, 0, 1, 2}).Draw(t, "init")
 	c.NV = rapid.IntRange(0, 3).Draw(t, "nv0")
-	nops := rapid.IntRange(4, maxOps).Draw(t, "nops")
+	nops := rapid.IntRange(8, maxOps).Draw(t, "nops")
 	afterTime := false
 	for i := 0; i < nops; i++ {
 		k := pick(t, w, "kind")
-		if afterTime && rapid.IntRange(0, 9).Draw(t, "refresh") < 6 {
-			k = "tip"
+		if afterTime && rapid.IntRange(0, 19).Draw(t, "refresh") < 17 {
+			// refresh the client right after a time advance: a fully signed tip header timed "now"
+			afterTime = false
+			c.Ops = append(c.Ops, Op{K: "tip", H: rapid.IntRange(0, 15).Draw(t, "h"), TM: "now", D: rapid.SampledFrom([]int64{0, 1e9, 3e9}).Draw(t, "d"),
+				App: rapid.Uint64Range(0, 5).Draw(t, "app"), NV: rapid.IntRange(0, 3).Draw(t, "nvs")})
+			continue
+		}
+		if (k == "conflict" || k == "misb" || k == "freeze") && i < nops/3 {
+			k = "tip" // freezing operations only after some state has been built up
 		}
 		afterTime = false
 		op := Op{K: k}
@@ -150,10 +158,10 @@ func genCase(t *rapid.T, w weights, maxOps int, rel func(i, n int) int) Case {
 			op.D = rapid.SampledFrom([]int64{0, 1, 1e9, 3e9, 20e9, 60e9}).Draw(t, "d")
 			op.App = rapid.Uint64Range(0, 5).Draw(t, "app")
 			op.NV = rapid.IntRange(0, 3).Draw(t, "nvs")
-			if rapid.IntRange(0, 9).Draw(t, "vsx") == 0 {
+			if rapid.IntRange(0, 13).Draw(t, "vsx") == 0 {
 				op.VS = rapid.IntRange(1, 5).Draw(t, "vs")
 			}
-			if rapid.IntRange(0, 11).Draw(t, "badx") == 0 {
+			if rapid.IntRange(0, 15).Draw(t, "badx") == 0 {
 				op.Bad = rapid.IntRange(1, 2).Draw(t, "bad")
 			}
 			if k == "update" && rapid.IntRange(0, 19).Draw(t, "oldrev") == 0 {
@@ -186,7 +194,7 @@ func genCase(t *rapid.T, w weights, maxOps int, rel func(i, n int) int) Case {
 			op.NV = rapid.IntRange(0, 3).Draw(t, "nvs")
 		case "time":
 			// seconds, relative to the trusting period
-			op.D = rapid.SampledFrom([]int64{c.TP / 8, c.TP / 4, c.TP / 3, c.TP / 2, c.TP - 20, 30}).Draw(t, "d")
+			op.D = rapid.SampledFrom([]int64{c.TP / 8, c.TP / 6, c.TP / 4, c.TP / 3, c.TP / 3, c.TP * 2 / 5, 30}).Draw(t, "d")
 			afterTime = true
 		case "jump":
 			op.D = rapid.SampledFrom([]int64{-1, 0, 1, -1, 0, 1, -5e9, 2}).Draw(t, "d")
@@ -198,6 +206,11 @@ func genCase(t *rapid.T, w weights, maxOps int, rel func(i, n int) int) Case {
 		case "send2", "conninit", "chaninit":
 		}
 		c.Ops = append(c.Ops, op)
+		if (k == "conflict" || k == "misb" || k == "freeze") && w["recover"] > 0 && rapid.IntRange(0, 9).Draw(t, "thaw") < 6 {
+			// a freezing operation is usually followed by a recovery so that the history goes on
+			c.Ops = append(c.Ops, Op{K: "recover", V: rapid.SampledFrom([]string{"same", "same", "bump"}).Draw(t, "variant"), H: rapid.IntRange(0, 15).Draw(t, "h"),
+				D: rapid.SampledFrom([]int64{0, 1e9}).Draw(t, "d"), NV: rapid.IntRange(0, 3).Draw(t, "nvs")})
+		}
 	}
 	return c
 }
@@ -522,7 +535,18 @@ func (e *env) exec(i int, op Op) *step {
 	}
 	switch op.K {
 	case "update":
-		h := H{e.rev, e.c.Heights[op.H%len(e.c.Heights)]}
+		// any universe height that is not stored (below the lowest stored one: invalid, no
+		// trusted state; between stored ones: gap filling; above: a new tip)
+		var cand []uint64
+		for _, u := range e.c.Heights {
+			if _, ok := e.cur.Cons[H{e.rev, u}]; !ok {
+				cand = append(cand, u)
+			}
+		}
+		h := e.tipHeight(op.H)
+		if len(cand) > 0 {
+			h = H{e.rev, cand[op.H%len(cand)]}
+		}
 		if op.V == "oldrev" && e.rev > 1 {
 			h.Rev = e.rev - 1
 		}
@@ -733,6 +757,27 @@ func (e *env) advanceModel(st *step) {
 			e.rev = st.SubstituteH.Rev
 		}
 	}
+}
+
+// rejReason buckets a rejection for the generator-health metrics (never used by an oracle).
+func rejReason(err error) string {
+	if err == nil {
+		return "none"
+	}
+	m := err.Error()
+	for _, kv := range [][2]string{
+		{"status", "not_active"}, {"old header has expired", "trusted_expired"}, {"trusting period", "trusted_expired"},
+		{"could not get trusted consensus state", "trusted_missing"}, {"must be less than header height", "trusted_not_below"},
+		{"header height ≤", "trusted_not_below"}, {"does not hash to latest trusted", "trusted_vals"}, {"insufficient voting power", "power"},
+		{"wrong signature", "signature"}, {"invalid signature", "signature"}, {"to be after old header time", "time_not_after_trusted"},
+		{"new header has a time from the future", "time_future"}, {"expected old header next validators", "adjacent_vals"},
+		{"validators hash", "adjacent_vals"}, {"another chain", "chain_id"}, {"revision", "revision"}, {"can't trust new val set", "trust_level"},
+	} {
+		if strings.Contains(m, kv[0]) {
+			return kv[1]
+		}
+	}
+	return "other"
 }
 
 func frozenCS(cs *ibctm.ClientState) bool { return cs != nil && !cs.FrozenHeight.IsZero() }
